@@ -432,6 +432,15 @@ func (wh *writeHelper) updateSchemaIfNeeded(database, rp string, r *influx.Row, 
 	var err error
 	var isDropRow bool
 	var fieldToUpdateEndTime []*proto2.FieldSchema
+	// a point that uses the reserved key time as a tag is refused as a whole (the partial-write error says so): it must
+	// not be stored under the series without that tag. The schema is still brought up to date for its other keys.
+	hasTimeTag := false
+	for i := range r.Tags {
+		if r.Tags[i].Key == "time" {
+			hasTimeTag = true
+			break
+		}
+	}
 	if fieldToUpdateEndTime, fieldToCreatePool, isDropRow, err = wh.updateSchemaCheckBase(database, rp, r, mst, originName,
 		fieldToCreatePool, fieldToUpdateEndTime); err != nil {
 		if isDropRow {
@@ -452,7 +461,7 @@ func (wh *writeHelper) updateSchemaIfNeeded(database, rp string, r *influx.Row, 
 		SchemaEndtimeUpdateManager.Put(database, rp, originName, fieldToUpdateEndTime)
 		statistics.NewHandler().WriteUpdateSchemaEndTimeDuration.Add(time.Since(start).Nanoseconds())
 	}
-	return fieldToCreatePool, false, err
+	return fieldToCreatePool, hasTimeTag && err != nil, err
 }
 
 func (wh *writeHelper) updatePrimaryKeyMapIfNeeded(primaryKey []string, originName string) {
